@@ -25,15 +25,18 @@ def jobs_for(ctx):
     if not ctx.thorough:
         jobs.append(dict(tag="xw2", cfg=c06.gen_cfg(edits=2, acts=("wrap", "base"), focus=c06.ALL_FOCUS, **clean), workers=4))
         jobs.append(dict(tag="xadd", cfg=c06.gen_cfg(edits=3, acts=("add",), focus=c06.ALL_FOCUS, **clean), workers=2))
-        for k in range(4):
-            jobs.append(dict(tag="wsim%d" % k, simulate=35, depth=9, seed=s * 100 + k,
+        # phase 3: wrapper edits around a document already embedded under two parent keys (embedding depth 2)
+        jobs.append(dict(tag="xe2", cfg=c06.gen_cfg(edits=1, acts=("wrap", "base"), focus=c06.ALL_FOCUS, wrap0=1, **clean)))
+        for k in range(3):
+            jobs.append(dict(tag="wsim%d" % k, simulate=25, depth=9, seed=s * 100 + k,
                              cfg=c06.gen_cfg(ginds=(0, 2, 4), rsteps=(0, 2), edits=8, acts=acts, focus=c06.ALL_FOCUS, sim=True, **clean)))
         for k in range(2):
-            jobs.append(dict(tag="deep%d" % k, simulate=90, depth=6, seed=s * 100 + 20 + k,
+            jobs.append(dict(tag="deep%d" % k, simulate=60, depth=6, seed=s * 100 + 20 + k,
                              cfg=c06.gen_cfg(edits=5, acts=("wrap", "base"), focus=c06.ALL_FOCUS, sim=True, **clean)))
     else:
         jobs.append(dict(tag="xw2", cfg=c06.gen_cfg(edits=2, acts=("wrap", "base"), focus=c06.ALL_FOCUS, **clean), workers=4))
         jobs.append(dict(tag="xadd", cfg=c06.gen_cfg(edits=4, acts=("add",), focus=c06.ALL_FOCUS, **clean), workers=2))
+        jobs.append(dict(tag="xe2", cfg=c06.gen_cfg(edits=2, acts=("wrap", "base"), focus=c06.ALL_FOCUS, wrap0=1, **clean), workers=2))
         jobs.append(dict(tag="xs1", cfg=c06.gen_cfg(edits=1, acts=("scalar",), focus=("expr", "alert", "annotations.v"), **clean)))
         for k in range(12):
             jobs.append(dict(tag="wsim%d" % k, simulate=120, depth=10, seed=s * 100 + k,
@@ -51,14 +54,15 @@ def sig_of(v):
 def run(ctx, cases_override=None):
     ctx.build_vh()
     if cases_override is None:
-        cases, gstats = c06.run_gen(ctx, jobs_for(ctx), par=6 if not ctx.thorough else 8)
+        cases, gstats = c06.run_gen(ctx, jobs_for(ctx), par=3)
     else:
         cases, gstats = cases_override, []
     cases.sort(key=lambda c: json.dumps(c["lay"], sort_keys=True))
     for i, c in enumerate(cases):
         c["id"] = i + 1
     cpath = write_ndjson(ctx.path("c19_cases.ndjson"), cases)
-    nontriv = lambda c: bool(c["lay"]["wrap"]["levels"] or c["lay"]["wrap"]["docB"] or c["lay"]["wrap"]["docA"])
+    nontriv = lambda c: bool(c["lay"]["wrap"]["levels"] or c["lay"]["wrap"]["docB"] or c["lay"]["wrap"]["docA"]
+                             or c["lay"]["wrap"]["mix"] or c["lay"]["wrap"]["docE"] != "none")
     wr = [c for c in cases if nontriv(c)]
     sample = dict(wr[len(wr) // 3] if wr else cases[0])
     for c in cases:                     # the rendered text stays on disk only (memory)
@@ -66,7 +70,7 @@ def run(ctx, cases_override=None):
         c.pop("base", None)
     tpath = ctx.path("c19_trace.ndjson")
     ctx.vh("exec-c19", cpath, tpath)
-    j = c06.run_judge(ctx, "LayoutWrapTrace", tpath, "c19", slices=10 if not ctx.thorough else 14)
+    j = c06.run_judge(ctx, "LayoutWrapTrace", tpath, "c19", slices=6 if not ctx.thorough else 14)
     viols = []
     for cid, v in j["VIOL"]:
         c = cases[cid - 1]
@@ -87,7 +91,7 @@ def run(ctx, cases_override=None):
     for c in cases:
         w = c["lay"]["wrap"]
         shapes.add((c["lay"]["base"], tuple((lv["seq"], lv["key"], lv["step"], lv["sibB"], lv["sibA"], lv["sl"]) for lv in w["levels"]),
-                    w["embed"], w["docB"], w["docA"]))
+                    w["embed"], w["embed2"], w["docB"], w["docA"], w["docE"], w["mix"]))
         rules += len(c["lay"]["rules"])
     cov = {
         "evaluations": 3 * len(cases),
@@ -108,6 +112,9 @@ def run(ctx, cases_override=None):
         "with_thanos_key": sum(1 for c in cases if any(g["k"] == "prs" for g in c["lay"]["ghdr"])),
         "with_merge_rule": sum(1 for c in cases if any(r["merge"] for r in c["lay"]["rules"])),
         "with_crlf": sum(1 for c in cases if c["lay"]["crlf"]),
+        "embedded_depth2": sum(1 for c in cases if c["lay"]["wrap"]["embed2"]),
+        "with_mixed_list": sum(1 for c in cases if c["lay"]["wrap"]["mix"]),
+        "with_empty_document": sum(1 for c in cases if c["lay"]["wrap"]["docE"] != "none"),
         "states": sum(g["states"] or 0 for g in gstats),
         "explanation": "exploration over a TLA+-generated layout/wrapper grammar with a TLA+-evaluated oracle; no system state machine is "
                        "model-checked. Part xw2 is exhaustive: every wrapper reachable by two wrapper edits around the base document "
